@@ -7,6 +7,13 @@
   What is modelled, statement by statement:
 
     ModbusTransactionManager.getNextTID     self.tid = (self.tid + 1) & 0xffff; return self.tid
+    DictTransactionManager.getNextTID       tid = super().getNextTID()                       (since 5cae7f5)
+                                            for _ in range(0xffff):
+                                                if tid not in self.transactions: break
+                                                tid = super().getNextTID()
+                                            return tid
+                                            (an id that still waits for its reply is skipped; `Old.*` below is the
+                                            model with the allocation before that commit)
     DictTransactionManager.addTransaction   self.transactions[tid] = request
     DictTransactionManager.getTransaction   return self.transactions.pop(tid, None)
     DictTransactionManager.__iter__         iterkeys(self.transactions)         (insertion order)
@@ -147,11 +154,27 @@ def get (v : Variant) (s : State) (k : Nat) : Option Entry × State :=
     `getTransaction`, which ignores its argument – the model passes the ghost labels) -/
 def keys (s : State) : List Nat := s.pending.map (·.1)
 
+/-! ### transaction id allocation -/
+
+/-- `ModbusTransactionManager.getNextTID` -/
+def nextTid (t : Nat) : Nat := (t + 1) % 65536
+
+/-- the loop of `DictTransactionManager.getNextTID`: `t` is the current candidate, `n` the iterations left -/
+def skipLoop (pending : List (Nat × Entry)) : Nat → Nat → Nat
+  | 0, t => t
+  | n + 1, t => if t ∈ pending.map (·.1) then skipLoop pending n (nextTid t) else t
+
+/-- `self.transaction.getNextTID()` (the manager's `tid` afterwards is the value returned) -/
+def allocTid (v : Variant) (s : State) : Nat :=
+  match v with
+  | .dict => skipLoop s.pending 65535 (nextTid s.tid)
+  | .fifo => nextTid s.tid
+
 /-! ### protocol -/
 
 /-- One call of `execute` up to the point where it returns its deferred. -/
 def issue (v : Variant) (s : State) (r : Req) : State × List Event :=
-  let tid := (s.tid + 1) % 65536                       -- getNextTID
+  let tid := allocTid v s                              -- getNextTID
   let id := s.nextId
   let s1 := { s with tid := tid, nextId := id + 1 }
   if s.connected then
@@ -282,5 +305,74 @@ def Event.isExc : Event → Bool
   | _ => false
 
 def pendingIds (s : State) : List Nat := s.pending.map (·.2.id)
+
+/-! ### the mutant: transaction ids handed out modulo 65536 without looking at the table (before 5cae7f5) -/
+namespace Old
+
+def issue (v : Variant) (s : State) (r : Req) : State × List Event :=
+  let tid := nextTid s.tid
+  let id := s.nextId
+  let s1 := { s with tid := tid, nextId := id + 1 }
+  if s.connected then (add v s1 tid ⟨id, r⟩, [.sent id tid])
+  else (s1, [.sent id tid, .errback id .notConnected])
+
+def execute (v : Variant) (s : State) : Req → State × List Event
+  | .plain => issue v s .plain
+  | .onOk k => issue v s (.onOk k)
+  | .onErr k =>
+    let p := issue v s (.onErr k)
+    if s.connected then p else
+      let q := execute v p.1 k
+      (q.1, p.2 ++ q.2)
+  | .both o k =>
+    let p := issue v s (.both o k)
+    if s.connected then p else
+      let q := execute v p.1 k
+      (q.1, p.2 ++ q.2)
+
+def fireOk (v : Variant) (s : State) (e : Entry) (t tag : Nat) : State × List Event :=
+  match e.k.okK with
+  | none => (s, [.callback e.id t tag])
+  | some k => let q := execute v s k; (q.1, .callback e.id t tag :: q.2)
+
+def fireErr (v : Variant) (s : State) (e : Entry) (why : Why) : State × List Event :=
+  match e.k.errK with
+  | none => (s, [.errback e.id why])
+  | some k => let q := execute v s k; (q.1, .errback e.id why :: q.2)
+
+def reply (v : Variant) (s : State) (t tag : Nat) : State × List Event :=
+  match get v s t with
+  | (none, s') => (s', [])
+  | (some e, s') => fireOk v s' e t tag
+
+def lostLoop (v : Variant) : List Nat → State → State × List Event
+  | [], s => (s, [])
+  | k :: ks, s =>
+    match get v s k with
+    | (none, s') => (s', [.exc .attr])
+    | (some e, s') =>
+      let p := fireErr v s' e .lost
+      let q := lostLoop v ks p.1
+      (q.1, p.2 ++ q.2)
+
+def connectionLost (v : Variant) (s : State) : State × List Event :=
+  let s1 := { s with connected := false }
+  lostLoop v (keys s1) s1
+
+def step (v : Variant) (s : State) : Op → State × List Event
+  | .connectionMade => ({ s with connected := true }, [])
+  | .execute r => execute v s r
+  | .reply t tag => reply v s t tag
+  | .connectionLost => connectionLost v s
+  | .close hc => close s hc
+
+def run (v : Variant) (s : State) : List Op → State × List Event
+  | [] => (s, [])
+  | op :: ops =>
+    let p := step v s op
+    let q := run v p.1 ops
+    (q.1, p.2 ++ q.2)
+
+end Old
 
 end Pymodbus.AsyncClient
